@@ -122,7 +122,7 @@ impl Prop for C09Prop {
             Section {
                 name: "trees",
                 kind: SectionKind::Random {
-                    cases: tier.pick(100_000, 2_000_000),
+                    cases: tier.pick(100_000, 1_000_000),
                     maxlen: 500,
                 },
                 exhaustive: false,
